@@ -919,7 +919,16 @@ func c14FullRead(p *ana.Prog, r *ana.Result) {
 			case "encoding/binary.Read", "io.ReadFull", "io.ReadAtLeast":
 				nReads++
 				r.Ok("C14.fullread", ana.FuncName(fn), "full-read:"+n, posOf(p, in), n+" consumes exactly the requested bytes or fails")
-			case "(*bufio.Reader).Read", "(io.Reader).Read", "(*crypto/tls.Conn).Read", "(github.com/quic-go/quic-go.Stream).Read", "(github.com/quic-go/quic-go.ReceiveStream).Read", "(*bufio.Reader).ReadByte", "(*bufio.Reader).Peek", "(*bufio.Reader).Discard":
+			case "(*bufio.Reader).Discard":
+				// Discard(n) skips exactly n bytes or returns an error: a full read when the error is looked at
+				if cc, isCall := in.(*ssa.Call); isCall && errResultUsed(cc, 1) {
+					nReads++
+					r.Ok("C14.fullread", ana.FuncName(fn), "full-read:"+n, posOf(p, in), "Discard skips exactly the requested bytes or fails, and its error is checked")
+					return
+				}
+				nReads++
+				r.Violate("C14.fullread", ana.FuncName(fn), "bare-read", posOf(p, in), "the record stream is consumed with a (*bufio.Reader).Discard whose error is not checked: a short read (transport segmentation) desynchronises the record parser")
+			case "(*bufio.Reader).Read", "(io.Reader).Read", "(*crypto/tls.Conn).Read", "(github.com/quic-go/quic-go.Stream).Read", "(github.com/quic-go/quic-go.ReceiveStream).Read", "(*bufio.Reader).ReadByte", "(*bufio.Reader).Peek":
 				nReads++
 				desc := "bare-read"
 				if len(c.Common().Args) > 1 {
@@ -932,4 +941,23 @@ func c14FullRead(p *ana.Prog, r *ana.Result) {
 		})
 	}
 	r.Floor("C14.fullread.sites", nReads, 3)
+}
+
+// errResultUsed: result #idx (an error) of the call is compared with nil or returned.
+func errResultUsed(c *ssa.Call, idx int) bool {
+	ex := extractOf(c, idx)
+	if ex == nil {
+		return false
+	}
+	for _, ref := range ana.Referrers(ex) {
+		switch y := ref.(type) {
+		case *ssa.BinOp:
+			if ana.IsNilConst(y.X) || ana.IsNilConst(y.Y) {
+				return true
+			}
+		case *ssa.Return, *ssa.Phi, *ssa.Store:
+			return true
+		}
+	}
+	return false
 }
